@@ -187,6 +187,7 @@ func (p *Proc) Process(ctx context.Context, recs []opencdc.Record) []sdk.Process
 			p.W.Log("proc", "filter", idx, src) // an engine that accepts it handles it as "no record comes out" = filtered
 			out = append(out, sdk.MultiRecord{})
 		case "short":
+			p.W.Log("proc", "short", idx, src)
 			return out
 		case "nil":
 			out = append(out, nil)
